@@ -33,7 +33,11 @@ Inductive hact :=
   | HSetReg (r : reg) (v : Z)
   | HIncReg (r : reg)
   | HWriteMem (a : Z) (d : list Z)
-  | HSetFlags (v : Z).
+  | HSetFlags (v : Z)
+  (* the hook tries to register, from inside itself, another hook (one that increments [r]) for mnemonic [m];
+     a hook only ever runs with [hooks_running] set, so the registration is refused and nothing is added:
+     the script ignores the refusal and goes on *)
+  | HTryHook (before : bool) (m : mnemonic) (r : reg).
 
 Definition run_hact (c : cfg) (a : hact) : MM unit :=
   match a with
@@ -46,6 +50,7 @@ Definition run_hact (c : cfg) (a : hact) : MM unit :=
                           end
   | HWriteMem a d => mem_write_bytes a d
   | HSetFlags v => put_rflags v
+  | HTryHook _ _ _ => ret tt
   end.
 
 Fixpoint run_hacts (c : cfg) (l : list hact) : MM unit :=
